@@ -146,13 +146,32 @@ def leanchecker(ctx, module):
 
 # ---------------------------------------------------------------- Go side
 
-def build_harness(ctx, race=False):
+def write_harness_gomod():
+    """harness/go.mod = fixed header + every requirement of REPO's go.mod (so that each package the harness
+    reaches through DAWGS resolves offline to exactly the version DAWGS pins) + replace => REPO."""
     shutil.copy(os.path.join(REPO, "go.sum"), os.path.join(HARNESS, "go.sum"))
-    gomod = os.path.join(HARNESS, "go.mod")
-    txt = open(gomod).read()
-    want = re.sub(r"(replace github.com/specterops/dawgs => )\S+", lambda m: m.group(1) + REPO, txt)
-    if want != txt:   # VERIF_REPO points at a scratch worktree (mutation testing); default is /repo
-        open(gomod, "w").write(want)
+    reqs, inblock = [], False
+    gover = "1.26.4"
+    for line in open(os.path.join(REPO, "go.mod")):
+        t = line.strip()
+        if t.startswith("go "):
+            gover = t.split()[1]
+        if t.startswith("require ("):
+            inblock = True; continue
+        if inblock and t == ")":
+            inblock = False; continue
+        if inblock and t and not t.startswith("//"):
+            reqs.append(t.split("//")[0].strip())
+        elif t.startswith("require ") and "(" not in t:
+            reqs.append(t[len("require "):].split("//")[0].strip())
+    body = "module verifharness\n\ngo %s\n\nrequire github.com/specterops/dawgs v0.0.0\n\nrequire (\n" % gover
+    body += "".join("\t%s // indirect\n" % r for r in sorted(set(reqs)))
+    body += ")\n\nreplace github.com/specterops/dawgs => %s\n" % REPO
+    open(os.path.join(HARNESS, "go.mod"), "w").write(body)
+
+
+def build_harness(ctx, race=False):
+    write_harness_gomod()
     out_bin = HARNESS_BIN + ("-race" if race else "")
     cmd = ["go", "build", "-tags", "verif"] + (["-race"] if race else []) + ["-o", out_bin, "."]
     try:
